@@ -40,8 +40,7 @@ def guarded_checking_code(typ):
     """
     cg = generate_checking_code(typ)
     if isinstance(typ, DependentType):
-        bound = CodeGen("isinstance({arg}, {bound})", bound=typ.bound)
-        return combine("{} and {}", [bound, cg])
+        return combine("{} and {}", [generate_checking_code(typ.bound), cg])
     return cg
 
 
